@@ -58,7 +58,7 @@ def run(prop, tier):
     stats = {}
     violations, inconclusive, samples = [], [], []
     fired = {p: 0 for p in PASSES}
-    n_checked = n_changed = n_disagree = n_skipped = 0
+    n_checked = n_changed = n_disagree = n_skipped = n_undecided = 0
     kinds = {}
     CH = 200
     for base in range(0, len(progs), CH):
@@ -94,6 +94,9 @@ def run(prop, tier):
             except symexec.PathBudget:
                 n_skipped += 1
                 continue
+            except symexec.Undecided:
+                n_undecided += 1
+                continue
             except RuntimeError as e:
                 inconclusive.append("program %d (%s): %s" % (n_checked, kind, e))
                 continue
@@ -113,7 +116,7 @@ def run(prop, tier):
                     r2 = None
                     try:
                         r2 = check_pair(before, po, {})
-                    except (RuntimeError, symexec.PathBudget):
+                    except (RuntimeError, symexec.PathBudget, symexec.Undecided):
                         pass
                     if r2 is not None and r2["confirmed"]:
                         culprit = pn
@@ -132,6 +135,8 @@ def run(prop, tier):
         "samples": samples or [{"note": "no program was changed by the passes"}],
         "programs_changed_by_optimization": n_changed,
         "programs_skipped_path_budget": n_skipped,
+        "programs_undecided_solver_timeout": n_undecided,
+        "programs_decided": n_checked - n_skipped - n_undecided,
         "programs_per_generator": kinds,
         "passes_fired": fired,
         "path_pairs": stats.get("pairs", 0),
